@@ -84,6 +84,7 @@ pub fn replay(path: &str) -> i32 {
 pub fn child(args: &[String]) -> i32 {
     match (args.first().map(|s| s.as_str()), args.get(1)) {
         (Some("c08"), Some(path)) => c08::child_main(path),
+        (Some("c08fn"), _) => c08::child_fn_main(&args[1..]),
         _ => 2,
     }
 }
